@@ -758,6 +758,7 @@ fn main_loop() {
             ("ROBAST", 4) => run_robast(f[2], f[3]),
             ("GEN", 4) => second::run_gen(f[2], f[3]),
             ("GENU", 4) => second::run_genu(f[2], f[3]),
+            ("GENS", 4) => second::run_gens(f[2], f[3]),
             _ => Err(format!("unknown case kind {}", f[0])),
         }));
         match res {
